@@ -271,6 +271,10 @@ def run(prop, tier):
         mc_results.append({"name": "unbounded-proof", "module": "spec/proofs/FirstCrossingProofs.tla", "tool": "tlapm (TLAPS)", "obligations_proved": n_proved,
                            "seconds": round(t_pr, 2), "theorem": "Spec => []StoppedAtFirstCrossing",
                            "bound_to_the_machine_by": "PROPERTY ImplementsFirstCrossing of spec/GenerateRefinesFC.tla, checked by TLC on every model instance"})
+        # the same inductive invariant discharged by a second, independent engine (symbolic, SMT): holds initially, preserved by every step
+        t_apa = common.apalache_first_crossing(strict=True)
+        mc_results.append({"name": "inductive-invariant-symbolic", "module": "spec/apalache/FirstCrossingApa.tla", "tool": "apalache-mc 0.58 (z3)", "seconds": t_apa,
+                           "checked": "Init => IndInv (length 0); IndInv /\\ Next => IndInv' (length 1), Strict = TRUE, all integer amounts and limits, history of up to 4 records"})
 
     # ---- (2) conformance ----
     census = {}
